@@ -251,6 +251,8 @@ static void expect_factor(expect *x, long n, double base, double f, double init)
 
 /* ------------------------------------------------------------ protocol run */
 static elem ref[MAXWALK + 2], ref2[MAXWALK + 2];
+/* string iterator text with blanks behind the last element: advance() announces an element that has no value (finding in notes/C19.md) */
+static int tail_not_claimed;
 
 /* documented loop on a fresh source; returns number of elements, sets *open when the bound was hit */
 static long ref_walk(source *s, elem *seq, int *open)
@@ -263,6 +265,7 @@ static long ref_walk(source *s, elem *seq, int *open)
 		src_read(s, &e);
 		if (e.st != StVal) {
 			/* nothing (more) to read: for a fresh source L = 0 */
+			if (n && e.st == StEnd && tail_not_claimed) { vf_count("string:phantom-element-behind-trailing-blank", 1); return -1 - n; }
 			VF_CHECK(n == 0 || e.st == StErr, "model:walk:no-value-after-advance", "%s: %s: advance() reported a further element after %ld but value() has none", s->api, s->desc, n);
 			if (e.st == StErr) return -1 - n;
 			return n;
@@ -755,14 +758,14 @@ static void case_direct(vf_rng *r)
 	expect_free(&x);
 }
 /* _mpt_iterator_linear/_factor/_range with arguments taken from another iterator */
-struct val_arg { int which; const char *args; };
+struct val_arg { int which; const char *args; int from_string; };
 static MPT_INTERFACE(metatype) *make_from_iter(void *p)
 {
 	struct val_arg *a = p;
 	MPT_INTERFACE(metatype) *src, *ret;
 	MPT_INTERFACE(iterator) *it = 0;
 	MPT_STRUCT(value) val;
-	if (!(src = mpt_iterator_values(a->args))) return 0;
+	if (!(src = a->from_string ? mpt_iterator_string(a->args, 0) : mpt_iterator_values(a->args))) return 0;
 	MPT_metatype_convert(src, MPT_ENUM(TypeIteratorPtr), &it);
 	MPT_value_set(&val, MPT_ENUM(TypeIteratorPtr), &it);
 	ret = a->which == 0 ? _mpt_iterator_linear(&val) : a->which == 1 ? _mpt_iterator_factor(&val) : _mpt_iterator_range(&val);
@@ -794,7 +797,22 @@ static void case_from_iter(vf_rng *r)
 		expect_range(&x, p1, p2, p3);
 	}
 	a.args = d;
-	vf_fp(d, strlen(d)); vf_fp_u64(10 + a.which);
+	a.from_string = vf_chance(r, 1, 2);
+	if (a.from_string) {
+		/* text arguments as mpt_object_set_string / configuration files hand them over: "4, 0, 2", "4   0   2" */
+		static const char *seps[] = { " ", ", ", "   ", ",", ",  " };
+		char tmp[200];
+		const char *sp = seps[vf_below(r, 5)];
+		size_t tl = 0;
+		for (const char *c = d; *c && tl + 4 < sizeof(tmp); c++) {
+			if (*c == ' ') tl += snprintf(tmp + tl, sizeof(tmp) - tl, "%s", sp);
+			else tmp[tl++] = *c;
+		}
+		tmp[tl] = 0;
+		snprintf(d, sizeof(d), "%s%s", vf_chance(r, 1, 4) ? "  " : "", tmp);
+		vf_count("direct:from-string-iterator", 1);
+	}
+	vf_fp(d, strlen(d)); vf_fp_u64(10 + a.which + 16 * a.from_string);
 	if (run_source(api[a.which], KNum, d, make_from_iter, &a, &x, r)) vf_nontrivial();
 	vf_count("direct:from-iterator", 1);
 	expect_free(&x);
@@ -920,17 +938,41 @@ static void case_string(vf_rng *r)
 	size_t l = 0;
 	int n = vf_range(r, 0, 8);
 
-	/* clean numeric lists: single spaces, no leading/trailing blank (tokenisation corners are not claimed) */
+	/*
+	 * numeric lists: elements separated by one or several blanks, or by a comma with optional blanks
+	 * behind it, optional leading blanks (the element conversion skips blanks in front of a number and
+	 * ends the element behind it).  The list denotes its numerals in order.
+	 */
+	static const char *seps[] = { " ", " ", "  ", "   ", ",", ", ", ",  ", "\t" };
+	static const char *lead[] = { "", "", " ", "  ", "\t " };
+	expect x = { -1, 0, 0, 0, 0 };
+	int trailing = vf_chance(r, 1, 8);
 	d[0] = 0;
+	if (n) {
+		expect_alloc(&x, n);
+		l += snprintf(d + l, sizeof(d) - l, "%s", lead[vf_below(r, 5)]);
+	}
 	for (int i = 0; i < n; i++) {
 		double v = pick_num(r, 0);
 		numtxt(t, sizeof(t), v, r);
-		l += snprintf(d + l, sizeof(d) - l, "%s%s", i ? " " : "", t);
+		x.v[i] = strtod(t, 0);
+		l += snprintf(d + l, sizeof(d) - l, "%s%s", i ? seps[vf_below(r, 8)] : "", t);
 	}
+	if (n) x.must_create = 1;
+	if (n && trailing) {
+		/* blanks behind the last element: whether they make a further (empty) element is not documented (see notes) */
+		l += snprintf(d + l, sizeof(d) - l, " ");
+		expect_free(&x); x.L = -1; x.must_create = 0;
+		vf_count("string:trailing-blank", 1);
+	}
+	if (strstr(d, "  ") || strstr(d, ", ") || d[0] == ' ' || d[0] == '\t') vf_count("string:blank-runs", 1);
 	a.text = (n || vf_chance(r, 1, 2)) ? d : 0;
 	a.sep = vf_chance(r, 1, 2) ? 0 : " ,";
 	vf_fp(d, strlen(d)); vf_fp_u64(40 + (a.text != 0));
-	if (run_source("mpt_iterator_string", KStr, a.text ? d : "(null)", make_string, &a, 0, r) && n >= 2) vf_nontrivial();
+	tail_not_claimed = n && trailing;
+	if (run_source("mpt_iterator_string", KStr, a.text ? d : "(null)", make_string, &a, n ? &x : 0, r) && n >= 2) vf_nontrivial();
+	tail_not_claimed = 0;
+	expect_free(&x);
 	vf_count("direct:string", 1);
 	vf_sample("mpt_iterator_string(\"%s\")", d);
 }
